@@ -72,7 +72,7 @@ Qed.
 
 (* what the rejection needs of the message just before the comparison *)
 Definition c11_before_check (td : option transport_dict) (fs : list (Z * bytes)) (m : message) : Prop :=
-  m_fields m = map init_of fs ++ repeat tv_zero (count_byte SOH (ser fs) - length fs) /\
+  m_fields m = map init_of fs /\
   m_header m = fold_left (addH td) fs hdr0 /\
   m_trailer m = fold_left (addT td) fs trl0 /\
   m_raw m = Some (ser fs).
@@ -115,11 +115,11 @@ Proof.
     destruct (do_parsing_framed_groups_gen fs td d mt _ v8 v9 mid res Hfr Efs Hn35 (ad_defs_of_as d mt) Hdict Hscan)
       as (m & Hfin & Hdo).
     exists m. split; [|exact Hdo].
-    destruct Hfin as (F1 & F2 & F3 & F4 & F5). cbn [mp_msg] in *. unfold c11_before_check. repeat split; assumption.
+    destruct Hfin as (F1 & F2 & F3 & F4 & F5). unfold c11_before_check. repeat split; assumption.
   - (* no application dictionary: no group ever starts *)
     destruct (do_parsing_framed fs td None Hfr (ad_no_group_start_none fs)) as (m & Hfin & Hdo).
     exists m. split; [|exact Hdo].
-    destruct Hfin as (F1 & F2 & F3 & F4 & F5). cbn [mp_msg] in *. unfold c11_before_check. repeat split; assumption.
+    destruct Hfin as (F1 & F2 & F3 & F4 & F5). unfold c11_before_check. repeat split; assumption.
 Qed.
 
 (* ------------------------------------------------------------------------------------------------ *)
